@@ -17,7 +17,7 @@ LOOSE = {b"8080": [b"\x01i8080"], b"\x01i8080": [b"8080"], b"\x01i1": [b"1", b"\
          b"false": [b"\x01b0"], b"": [b"\x01n"], b"\x01n": [b""]}
 HNAMES = [b"X-Auth-Token", b"x-auth-token", b"X-Other", b"Authorization"]
 HVALS = [b"<TOKEN>", b" <TOKEN> ", b"<TOKEN:upper>", b"<TOKEN:nobrace>", b"<TOKEN:prefix>", b"", b"<PREV>", b"<TOKEN>x", b"{}", b"x",
-         b"<TOKEN:cyc256>", b"<TOKEN:cyc512>", b"<TOKEN:cyc255>", b"<TOKEN:cyc38>", b"<TOKEN>" + b"j" * 256]
+         b"<TOKEN>\x00junk", b"<TOKEN>\x00", b"\x00<TOKEN>", b"<TOKEN:cyc256>", b"<TOKEN:cyc512>", b"<TOKEN:cyc255>", b"<TOKEN:cyc38>", b"<TOKEN>" + b"j" * 256]
 
 
 def cases(tier, seed, ctx=None):
